@@ -74,7 +74,7 @@ def crash_points(spec):
                 rr = lbfgsb.minimize_lbfgsb(x0=np.array(st.x, copy=True), fun=rlog.fun, jac=rlog.grad, bounds=p.bounds,
                                             checkpoint=st, **kw)
                 tail = full_log.pts[marks[j - 1]:]
-                tr = equiv.merge("C07_Restart", False, tail, rlog.pts, None, limit=spec.get("cmp", 4), rtol=1e-6)
+                tr = equiv.merge("C07_Restart", False, tail, equiv.strip_cached(rlog.pts, st.x), None, limit=spec.get("cmp", 4), rtol=1e-6)
             except Exception as ex:  # noqa: BLE001
                 tr = [{"e": "Mode", "prop": "C07_Restart", "exact": False},
                       {"e": "Result", "fields": {"restart_raises_" + type(ex).__name__: False}}]
